@@ -81,6 +81,7 @@ func hasRequired(v string) bool {
 }
 
 type sigBuilder struct {
+	group bool // next scenario writes same-typed neighbours as one declaration
 	n     int
 	cases []scen.Case
 	exp   map[string]SigExpect
@@ -145,7 +146,7 @@ func (b *sigBuilder) add(family string, ps []pSpec, r retSpec, feat map[string]s
 		in := map[string]string{"Path": "path", "Query": "query", "Header": "header", "FormField": "form", "Body": "body"}[p.loc]
 		exp.Params = append(exp.Params, SigParam{Name: wire, In: in, Required: !p.ptr || p.loc == "Path" || hasRequired(p.validate), Kinds: kinds})
 	}
-	m := scen.Method{Name: "Op" + id, Verb: "POST", Route: scen.S(route), Params: params, Response: r.response, ErrResps: r.errResps, Style: b.n % 2}
+	m := scen.Method{Name: "Op" + id, Verb: "POST", Route: scen.S(route), Params: params, Response: r.response, ErrResps: r.errResps, Style: b.n % 2, GroupParams: b.group}
 	if r.valKind != nil {
 		need(r.valKind.Decl)
 		m.Ret = sub(r.valKind.Go)
@@ -202,11 +203,18 @@ func Signature(tier string) (Family, map[string]SigExpect) {
 	for _, k := range kinds {
 		for _, loc := range k.Locs {
 			for _, ptr := range []bool{false, true} {
-				for _, al := range aliases {
+				for _, al := range append(append([]string{}, aliases...), "wn") {
 					if loc == "Body" && al != "" {
 						continue
 					}
+					// a wire name that is also a Go identifier: for the package-typed kinds (and string as the control)
+					if al == "wn" && k.Decl == "" && k.Name != "string" {
+						continue
+					}
 					for _, v := range validators {
+						if al == "wn" && v != "" && v != "required" && tier != "thorough" {
+							continue
+						}
 						if strings.Contains(v, "min") && (k.Name == "bool" || strings.HasPrefix(k.Name, "[]") || k.Name == "struct" || k.Name == "map") && tier != "thorough" {
 							continue
 						}
@@ -264,6 +272,33 @@ func Signature(tier string) (Family, map[string]SigExpect) {
 				ps = append(ps, pSpec{ctx: true, name: "ctx"})
 			}
 			b.add("sig-3param", ps, plainRet, map[string]string{"order": fmt.Sprint(pm), "ctx": fmt.Sprint(ctxPos)})
+		}
+	}
+	// (3b) grouped declarations ("a, b, c string, n int"): documented order is signature order whatever the grouping
+	groupings := [][]int{{3, 1}, {1, 3}, {2, 2}, {4}, {3, 2, 1}, {2, 1, 2}, {1, 1, 3}, {5, 1}}
+	gk := []Kind{kStr, kInt, kinds[4]}
+	for gi, g := range groupings {
+		for _, locMode := range []string{"all-query", "query/header", "header/query/path-first"} {
+			var ps []pSpec
+			idx := 0
+			for k, size := range g {
+				for j := 0; j < size; j++ {
+					loc := "Query"
+					switch {
+					case locMode == "query/header" && idx%2 == 1:
+						loc = "Header"
+					case locMode == "header/query/path-first" && idx == 0:
+						loc = "Path"
+					case locMode == "header/query/path-first" && idx%2 == 0:
+						loc = "Header"
+					}
+					ps = append(ps, pSpec{kind: gk[k%len(gk)], loc: loc, name: fmt.Sprintf("p%d", idx)})
+					idx++
+				}
+			}
+			b.group = true
+			b.add("sig-grouped", ps, plainRet, map[string]string{"grouping": fmt.Sprint(g), "locations": locMode, "gi": fmt.Sprint(gi)})
+			b.group = false
 		}
 	}
 	// (4) return shapes x @Response x @ErrorResponse
